@@ -262,28 +262,42 @@ theorem wf_pKwBody (ih : WF d n) : ∀ k isN bv r2 pre ns tk, Derives d 9 pre bv
   split at h
   · rename_i hc
     have hk : up tk.src = "IS" := by simpa [htk] using hc
-    by_cases hs : searchStrUp r2 "NOT" = true
-    · simp only [moveStrUp, hs, ↓reduceIte] at h
-      cases r2 with
-      | nil => simp [searchStrUp] at hs
-      | cons tn r3 =>
-        simp only [searchStrUp] at hs
-        simp only [List.drop_one, List.tail_cons] at h
-        split at h
-        · cases h
-        · rename_i av r4 hp
-          obtain ⟨u, rfl, hd⟩ := ih.pCompute r3 av r4 hp
-          simp only [Bool.or_true, Except.ok.injEq, Option.some.injEq, Prod.mk.injEq] at h
-          obtain ⟨rfl, rfl⟩ := h
-          exact ⟨tn :: u, by simp, by simpa using Derives.isNot_ hbv hno hk hs hd⟩
-    · simp only [moveStrUp, hs] at h
+    cases isN with
+    | true =>
+      simp only [↓reduceIte] at h
       split at h
       · cases h
       · rename_i av r4 hp
         obtain ⟨u, rfl, hd⟩ := ih.pCompute r2 av r4 hp
-        simp only [Except.ok.injEq, Option.some.injEq, Prod.mk.injEq] at h
+        simp only [Bool.true_or, Except.ok.injEq, Option.some.injEq, Prod.mk.injEq] at h
         obtain ⟨rfl, rfl⟩ := h
         exact ⟨u, by simp, by simpa using Derives.is_ hbv hno hk hd⟩
+    | false =>
+      have := notOpt_false hno
+      subst this
+      simp only [Bool.false_eq_true, ↓reduceIte, Bool.false_or] at h
+      by_cases hs : searchStrUp r2 "NOT" = true
+      · simp only [moveStrUp, hs, ↓reduceIte] at h
+        cases r2 with
+        | nil => simp [searchStrUp] at hs
+        | cons tn r3 =>
+          simp only [searchStrUp] at hs
+          simp only [List.drop_one, List.tail_cons] at h
+          split at h
+          · cases h
+          · rename_i av r4 hp
+            obtain ⟨u, rfl, hd⟩ := ih.pCompute r3 av r4 hp
+            simp only [Except.ok.injEq, Option.some.injEq, Prod.mk.injEq] at h
+            obtain ⟨rfl, rfl⟩ := h
+            exact ⟨tn :: u, by simp, by simpa using Derives.isNot_ hbv hk hs hd⟩
+      · simp only [moveStrUp, hs] at h
+        split at h
+        · cases h
+        · rename_i av r4 hp
+          obtain ⟨u, rfl, hd⟩ := ih.pCompute r2 av r4 hp
+          simp only [Except.ok.injEq, Option.some.injEq, Prod.mk.injEq] at h
+          obtain ⟨rfl, rfl⟩ := h
+          exact ⟨u, by simp, by simpa using Derives.is_ hbv NotOpt.no hk hd⟩
   split at h
   · rename_i hc
     exact ih.pInBody isN bv r2 pre ns tk hbv hno (by simpa [htk] using hc) v r h
